@@ -245,8 +245,13 @@ func TestVerifC20Cluster(t *testing.T) {
 						continue
 					}
 					p, ok := c20Parse(r.body)
-					if !ok || len(p.Results) != 1 {
+					if !ok {
 						rep.Fail("cluster:"+kind+":malformed-answer", fmt.Sprintf("%s: %s", key, r.body), replay)
+						continue
+					}
+					if p.Error != "" || len(p.Results) != 1 {
+						// an error answer (e.g. "leadership transfer in progress"): nothing was acknowledged
+						rep.Count("error-answers")
 						continue
 					}
 					if isFollower && r.servedBy != leader.RaftAddr {
